@@ -7,3 +7,6 @@ import PyIkev2.Props.C18
 #print axioms PyIkev2.Props.C18.c18_threshold
 #print axioms PyIkev2.Props.C18.c18_half_open_count
 #print axioms PyIkev2.Props.C18.c18_refusal_leaves_nothing
+#print axioms PyIkev2.Props.C18.c18_concrete_no_dh_without_cookie
+#print axioms PyIkev2.Props.C18.c18_concrete_cookie_answer
+#print axioms PyIkev2.Props.C18.c18_concrete_valid_cookie_passes
